@@ -19,15 +19,20 @@ const (
 )
 
 func checkC10(p *ana.Prog, r *ana.Result) {
-	r.Explain("C10 (structural necessary conditions): associated-data coverage - Authenticator.pack seals over buf[:pos] with pos the very position its own header is then written at, DecodePacket records Auth.pos = the cursor at the authenticator's header and stops parsing at the authenticator (no field after it can change the packet), authenticate opens with b[:Auth.pos] and the packet's own nonce/ciphertext; key-direction table - requests are sealed under C2S and verified under the cookie's C2S, responses sealed under the cookie's S2C and verified under S2C, the exporter contexts end in 0x00 (C2S) / 0x01 (S2C) and are fresh constant arrays, the key-exchange server seals C2S<-C2sKey, S2C<-S2cKey; gate - in both listeners the cookie's keys, new cookies and the response packet are produced only after ProcessRequest == nil, on the cookie decrypted in this iteration under the key looked up by the cookie's id; ProcessRequest/ProcessResponse succeed only through authenticate == nil; seal/open agreement - all four AEAD constructions use the same algorithm literal and nonce size, cookies are sealed and opened with nil associated data, Decrypt returns a cookie only through Open == nil and Decode == nil.")
+	r.Explain("C10 (structural necessary conditions): associated-data coverage - Authenticator.pack seals over buf[:pos] with pos the very position its own header is then written at, DecodePacket records Auth.pos = the cursor at the authenticator's header and stops parsing at the authenticator (no field after it can change the packet), authenticate opens with b[:Auth.pos] and the packet's own nonce/ciphertext; key-direction table - requests are sealed under C2S and verified under the cookie's C2S, responses sealed under the cookie's S2C and verified under S2C, the exporter contexts end in 0x00 (C2S) / 0x01 (S2C) and are fresh constant arrays, the key-exchange server seals C2S<-C2sKey, S2C<-S2cKey; gate - in both listeners the cookie's keys, new cookies and the response packet are produced only after ProcessRequest == nil, on the cookie decrypted in this iteration under the key looked up by the cookie's id; ProcessRequest/ProcessResponse succeed only through authenticate == nil, ProcessResponse in addition only through bytes.Equal(request id, response id), and cookies are stored only behind both (rule shared with C05); seal/open agreement - all four AEAD constructions use the same algorithm literal and nonce size, cookies are sealed and opened with nil associated data, Decrypt returns a cookie only through Open == nil and Decode == nil.")
 	r.Undecided("AEAD security itself, that any bit flip is rejected (follows from AEAD given the coverage clause), completeness for every encoder output (value property)")
 	c10Coverage(p, r)
 	c10Keys(p, r)
 	c10Listeners(p, r)
 	c10AEAD(p, r)
 	c20Export(p, r)
-	// re-label the shared exporter obligations
+	c05NTS(p, r) // the client's side: unique identifier and authenticate()==nil before success / StoreCookie
+	// re-label the shared exporter and response obligations
 	for _, o := range r.Obls {
+		if o.Rule == "C05.nts" {
+			o.Rule = "C10.response"
+			o.Key = strings.Replace(o.Key, "C05.nts", "C10.response", 1)
+		}
 		if o.Rule == "C20.export" {
 			o.Rule = "C10.export"
 			o.Key = strings.Replace(o.Key, "C20.export", "C10.export", 1)
